@@ -320,6 +320,12 @@ async def _sim_report_unbuilt(workflow, scheduler, reporter):
         snap = take_snapshot(workflow.db._held.con)
     w.pending_capture = None
     rc = await _orig["report_unbuilt"](workflow, scheduler, reporter)
+    if bool(scheduler.draining) != draining:
+        # a drain request arrived while the report was being written (report_unbuilt awaits
+        # the database and the reporter before it reads the flag): which value it saw cannot
+        # be told from outside, so this report is not judged
+        w.count("probe.drain_flag_changed_during_report")
+        return rc
     for m in w.monitors:
         m.on_report_unbuilt(w, snap, draining, rc, w.pending_capture)
     return rc
